@@ -327,7 +327,7 @@ func runC11(c c11Case, rng *rand.Rand, r *rep.Report) (key, msg string, stats ma
 func TestC11(t *testing.T) {
 	r := rep.New(t, "C11")
 	defer r.Flush()
-	r.Rule("PRNG polling/JSONP histories over real net/http: overlapping polls, overlapping data requests (first one with a slow body), a pending poll while the session closes by each cause, polls and data requests aborted by the client mid-flight, multi-packet data requests with a listener that takes time (acknowledgement ordering by tap sequence numbers), a revision-4 data request with a binary content type, and mixed conformant histories with server sends and heartbeats; oracle: counting ResponseWriter (exactly one WriteHeader per non-aborted exchange), handler return log, 400 + 'transport error' on overlap, bubble goroutine-leftover scan 40 s after everything closed; distinct = scenario signature")
+	r.Rule("PRNG polling/JSONP histories over real net/http: overlapping polls, overlapping data requests (first one with a slow body), a pending poll while the session closes by each cause (including the client's own close packet in a data request), polls and data requests aborted by the client mid-flight, multi-packet data requests with a listener that takes time (acknowledgement ordering by tap sequence numbers), a revision-4 data request with a binary content type, and mixed conformant histories with server sends and heartbeats; oracle: counting ResponseWriter (exactly one WriteHeader per non-aborted exchange), handler return log, 400 + 'transport error' on overlap, bubble goroutine-leftover scan 40 s after everything closed; distinct = scenario signature")
 	n := r.N(3000, 250000)
 	for i := 0; i < n; i++ {
 		if !r.Only(i) {
